@@ -156,6 +156,23 @@ func c02args(r *gen.R, depthMax int) ([]any, []string) {
 	return args, desc
 }
 
+// reentrantWriter logs a record of its own (through another logger, to another monitor) BEFORE it consumes its
+// payload - what a destination that reports metrics or audit lines through the same library does.
+type reentrantWriter struct {
+	inner mon.W
+	nest  *slog.Entry
+	busy  bool
+}
+
+func (w *reentrantWriter) Write(p []byte) (int, error) {
+	if !w.busy {
+		w.busy = true
+		w.nest.Info("nested record issued from inside a destination's Write", "len", len(p), "pad", "0123456789012345678901234567890123456789")
+		w.busy = false
+	}
+	return w.inner.Write(p)
+}
+
 type c02dest struct {
 	normal, errs []int
 	perLevel     map[slog.Level][]int
@@ -169,6 +186,12 @@ func c02main(c *Ctx) {
 	for i := 0; i < nW; i++ {
 		pool = append(pool, mon.New(log, fmt.Sprintf("W%d", i), shapes[i]))
 	}
+	// W4 consumes its payload only after logging something itself
+	nestLog := mon.NewLog()
+	nestLog.Discard = true
+	nestLogger := slog.New("nested").Root()
+	nestLogger.SetWriter(mon.New(nestLog, "N", mon.ShapePlain)).SetErrorWriter(mon.New(nestLog, "N", mon.ShapePlain)).SetLevel(slog.AlwaysLevel)
+	pool[4] = &reentrantWriter{inner: pool[4].(mon.W), nest: nestLogger}
 	verbs := c02verbs()
 	slog.AddFlags(slog.LnoInterrupt)
 	savedDefault := slog.Default()
@@ -219,6 +242,16 @@ func c02main(c *Ctx) {
 			d.perLevel[l] = []int{perm[3]}
 			lg.AddLevelWriter(l, pool[perm[3]])
 		}
+		if r.P(12) {
+			// a per-level writer added and removed again: the class list applies again
+			l := gen.Pick(r, []slog.Level{slog.InfoLevel, slog.ErrorLevel, slog.WarnLevel, slog.AlwaysLevel, slog.OKLevel})
+			if len(d.perLevel[l]) == 0 {
+				lg.AddLevelWriter(l, pool[perm[4]])
+				lg.RemoveLevelWriter(l, pool[perm[4]])
+			}
+		}
+		nestFmt := Format(r.Intn(3))
+		setFormat(nestLogger, nestFmt)
 		setFormat(lg, f)
 		L := gen.Pick(r, builtinLevels)
 		lg.SetLevel(L)
